@@ -139,19 +139,30 @@ pub proof fn lemma_drop_first(s: Seq<Option<real>>)
         assert(t.len() == 0);
         assert(s.drop_last().len() == 0);
         assert(s.last() == s[0]);
+        assert(cnt(t) == 0);
+        assert(cnt(s.drop_last()) == 0);
+        assert(cnt(s) == cnt(s.drop_last()) + cv(s.last()));
         assert forall|k: int| #![trigger ps(t, k)] ps(t, k) == ps(s, k) - pw(s[0], k) by {
+            assert(ps(t, k) == 0real);
+            assert(ps(s.drop_last(), k) == 0real);
             assert(ps(s, k) == ps(s.drop_last(), k) + pw(s.last(), k));
         }
     } else {
         let sd = s.drop_last();
         lemma_drop_first(sd);
-        assert(t.drop_last() =~= sd.subrange(1, sd.len() as int));
+        let td = sd.subrange(1, sd.len() as int);
+        assert(t.drop_last() =~= td);
+        assert(t.len() > 0);
         assert(t.last() == s.last());
         assert(sd[0] == s[0]);
         lemma_cnt_le_len(sd);
+        assert(cnt(s) == cnt(sd) + cv(s.last()));
+        assert(cnt(t) == cnt(t.drop_last()) + cv(t.last()));
+        assert(cnt(td) == cnt(sd) - cv(sd[0]));
         assert forall|k: int| #![trigger ps(t, k)] ps(t, k) == ps(s, k) - pw(s[0], k) by {
             assert(ps(s, k) == ps(sd, k) + pw(s.last(), k));
             assert(ps(t, k) == ps(t.drop_last(), k) + pw(t.last(), k));
+            assert(ps(td, k) == ps(sd, k) - pw(sd[0], k));
         }
     }
 }
